@@ -112,8 +112,8 @@ PROPS = {
         engines=[
             E("an", "e_an.c", model="an", quick=dict(cases=300, chunk=25), thorough=dict(cases=4000, seeds=4, chunk=50)),
         ],
-        trusted_base=["DD layer (Htagnewref/Hputelement/Hstartwrite/HDreuse_tagref) below the annotation tables: not modelled; refs handed out by Htagnewref are inputs of the model", "atom layer (annotation ids): an annotation is identified by (type, ref) on the tie"],
-        assumptions=["single-threaded; even DD-block sizes only (Hnumber over-reads odd-sized DD blocks: a C12 finding); DFANclear() before each DFAN session (its directory cache is per file NAME); AN sessions on one file record follow each other (ANend before the next ANstart, also across two file ids), writers other than AN* act on the file only while no AN session is open (the trees are a per-session cache by design)"],
+        trusted_base=["DD layer (Htagnewref/Hputelement/Hstartwrite/HDreuse_tagref/Hdeldd) below the annotation tables: modelled only as the DD list in DD order with free DDs (a deleted element leaves one, a new tag/ref takes the first; tied on every DFAN lookup and walk); refs handed out by Htagnewref / Hnewref or chosen by the writer are inputs of the model", "atom layer (annotation ids): an annotation is identified by (type, ref) on the tie"],
+        assumptions=["single-threaded; even DD-block sizes only (Hnumber over-reads odd-sized DD blocks: a C12 finding); DFANclear() before each DFAN session (its directory cache is per file NAME); AN sessions on one file record follow each other (ANend before the next ANstart, also across two file ids), writers other than AN* (Hputelement, Hdeldd, DFAN*) act on the file only while no AN session is open (the trees are a per-session cache by design); a DFANgetfid/DFANgetfds walk starts with isfirst = 1 (the walk state is per process, not per file)"],
     ),
     "C13": dict(
         lean_props=["H4.Props.C13Atom", "H4.Props.C13Files"],
